@@ -18,8 +18,8 @@ pinning/pinner/dsindex/indexer.go.
   (`present`, grows when `Pin` adds the root block).  `merkledag.FetchGraph`, `dagutils.DiffEnumerate`
   and the concurrent `merkledag.Walk` of the batch queries are modelled by their outcome
   (`fetchOk`, `diffEnum`, `reachStar`); `hasChild` (pin.go) is transcribed with its visited set.
-* Sequential histories only: the window in which `doPinRecursive`/`Update` release the lock is not
-  modelled (the `p.dirty != dirtyBefore` re-check is therefore never taken); `autoSync` is true.
+* `step` is one API call executed atomically; the window in which `doPinRecursive`/`Update`
+  release the lock is modelled separately (`stepNested`).
 Core-only: also imported by the drivers.
 -/
 namespace C22
@@ -103,6 +103,7 @@ structure St where
   nextId : Nat := 1
   present : List Nat := []
   log : List Write := []       -- writes of the running operation
+  autoSync : Bool := true      -- p.autoSync (SetAutosync)
 
 def St.write (s : St) (w : Write) : St :=
   { s with store := s.store.apply w, log := s.log ++ [w] }
@@ -119,8 +120,8 @@ def setDirty (s : St) : St :=
 def setClean (s : St) : St :=
   if s.memDirty then { s.write (.putDirty 0) with memDirty := false } else s
 
-/-- flushPins with autoSync (or force): Sync, then setClean -/
-def flushPins (s : St) : St := setClean s
+/-- flushPins(force = false): Sync + setClean only when autoSync is on; flushPins(force = true) is `setClean` -/
+def flushPins (s : St) : St := if s.autoSync then setClean s else s
 
 /-- addPin: record, cid index, name index -/
 def addPin (s : St) (c : Nat) (m : Mode) (name : Nat) : St :=
@@ -153,7 +154,7 @@ def removeIds (c : Nat) (mode : Option Mode) : List Nat â†’ St â†’ Bool â†’ St Ã
     | none =>
       -- index entry without pin record: repair the index, flush
       let s := repairIdx (setDirty s) c mode id
-      let s := flushPins s
+      let s := setClean s          -- flushPins(ctx, true)
       removeIds c mode rest s true
     | some pp =>
       if mode = none âˆ¨ mode = some pp.mode then removeIds c mode rest (removePin s id pp) true
@@ -364,6 +365,8 @@ inductive Op where
   | pinMode (c : Nat) (mode : Int) (name : Nat) (ctx : Ctx)
   | unpin (c : Nat) (recursive : Bool) (ctx : Ctx)
   | update (src dst : Nat) (unpin : Bool) (ctx : Ctx)
+  | setAutosync (auto : Bool)
+  | flush
   deriving DecidableEq, Repr
 
 def unpin (s : St) (c : Nat) (recursive : Bool) (ctx : Ctx) : St Ã— Res :=
@@ -404,6 +407,8 @@ def step (dag : Dag) (s : St) (op : Op) : St Ã— Res :=
     else (s, .badmode)
   | .unpin c recursive ctx => unpin s c recursive ctx
   | .update src dst u ctx => update dag s src dst u ctx
+  | .setAutosync auto => ({ s with autoSync := auto }, .ok)
+  | .flush => (setClean s, .ok)                           -- Flush: flushDagService(force), flushPins(force)
 
 /-! ### the code before the fix (kept for the counterexample theorems only) -/
 
@@ -434,11 +439,11 @@ def rebuildOne (s : St) (id : Nat) (pp : PinRec) : St :=
 
 /-- New(): load the dirty flag, rebuild the indexes from the records when it is 1 -/
 def reopenStore (st : Store) (nextId : Nat) (present : List Nat) : St :=
-  let s : St := { store := st, memDirty := false, nextId := nextId, present := present, log := [] }
+  let s : St := { store := st, memDirty := false, nextId := nextId, present := present, log := [], autoSync := true }
   if st.dirty = some 1 then
     let s := { s with memDirty := true }
     let s := st.recs.foldl (fun s e => rebuildOne s e.1 e.2) s
-    flushPins s
+    setClean s                   -- flushPins(ctx, true)
   else s
 
 /-- the process stops after the first `n` writes of `op`; a new pinner is opened on what was persisted -/
